@@ -54,8 +54,9 @@ def handle (verb : String) (args : List String) : Option String :=
     exactly once, an oversize argument gives status 1 and is handed to no command. -/
 def predC06 (req obs : List String) : Option Bool :=
   match req, obs with
-  | ["xargs-sys", stack, _n, _s, cmd, envp, input], [st, sizes] => do
+  | ["xargs-sys", stack, _n, sopt, cmd, envp, input], [st, sizes] => do
     let stack ← stack.toNat?
+    let sLimit ← sopt.toNat?
     let cmd ← parseGroups cmd
     let ev ← parseGroups envp
     let inp ← parseGroups input
@@ -65,8 +66,11 @@ def predC06 (req obs : List String) : Option Bool :=
     -- an argument "too large to be passed": above the per-argument limit, or not acceptable to
     -- exec even alone once the 2048 bytes of POSIX headroom are set aside
     let fileLen := cmd.headD 0
+    -- … or, with -s, not fitting max-chars together with the command (C04)
+    let cmdCost := (cmd.map (· + 1)).sum
     let cannotPass := fun (l : Nat) =>
-      l + 1 > 131072 || !execAcceptsL (kernelLimit stack - 2048) fileLen (cmd ++ [l]) ev
+      l + 1 > 131072 || !execAcceptsL (kernelLimit stack - 2048) fileLen (cmd ++ [l]) ev ||
+        (sLimit > 0 && cmdCost + l + 1 > sLimit)
     let oversize := inp.any cannotPass
     let delivered := sizes.sum
     -- every observed command, reconstructed from the batch sizes, is acceptable to the kernel model
